@@ -5,18 +5,25 @@
 //!   wait cause=<c> sup=<0|1> kids=<n> park=<0|1> ; <op> ; <op> ; ...
 //!     c ::= stop | drain | kill | killhandler | err | panic | stopkill | prefail | prepanic
 //!         | postfail | pserr | pspanic
-//!     op ::= w <id> <kind> <tmo>   spawn waiter task <id>; kind = wait|stopw|killw|drainw|join,
+//!     op ::= w <id> <kind> <tmo>   spawn waiter task <id>; kind = wait|stopw|killw|drainw|join|inline,
 //!                                  tmo = none|short|long   (short = 500 ms, long = 1 h)
+//!                                  inline = wait(None) polled by hand with a waker that re-polls the
+//!                                  future synchronously inside wake(), i.e. on the exiting task in the
+//!                                  middle of notify_waiters(): the schedule of an OS-thread waiter that
+//!                                  runs the instant it is woken
 //!          | x                     deliver the cause (stop()/drain()/kill()/message/open the start gate)
 //!          | g                     let the parked post_stop return
 //!          | k                     kill()          | s   stop(None)       | d   drain()
 //!          | a                     advance the virtual clock by 1000 ms
 //!   every op is followed by a quiescence barrier and a status sample.
-//! stdout, one Coq term per scenario:  (observations, statuses)
+//! stdout, one Coq term per scenario:  (observations, statuses, number of pg Leave notifications)
 //!   observations: waiter completions in order, then the waiters still pending at the end,
 //!   each `mkObs w outcome (mkSnap status name pid pg ps_active ps_done children sup)`.
 use std::sync::atomic::{AtomicU64, Ordering};
+use std::future::Future;
+use std::pin::Pin;
 use std::sync::{Arc, Mutex};
+use std::task::{Context, Poll, Wake, Waker};
 use std::time::Duration;
 
 use ractor::{
@@ -154,6 +161,7 @@ impl Actor for Kid {
 /// means the event had been sent when waiter w returned).
 struct Sup {
     main_name: String,
+    main_group: String,
     mark_prefix: String,
     log: Arc<Mutex<Vec<String>>>,
 }
@@ -180,6 +188,12 @@ impl Actor for Sup {
                 let g = change.get_group();
                 if let Some(w) = g.strip_prefix(&self.mark_prefix) {
                     self.log.lock().unwrap().push(format!("mark {w}"));
+                } else if g == self.main_group {
+                    if let pg::GroupChangeMessage::Leave(_, _, who) = &change {
+                        if who.iter().any(|c| c.get_name().as_deref() == Some(self.main_name.as_str())) {
+                            self.log.lock().unwrap().push("leave".into());
+                        }
+                    }
                 }
             }
             _ => {}
@@ -263,6 +277,38 @@ fn kv<'a>(words: &'a [&'a str], key: &str) -> &'a str {
     panic!("missing {key}");
 }
 
+/// A hand-polled wait(): `wake()` polls the future again on the spot.
+struct Inline {
+    fut: Mutex<Option<Pin<Box<dyn Future<Output = ()> + Send>>>>,
+    on_done: Box<dyn Fn() + Send + Sync>,
+}
+impl Inline {
+    fn poll_now(self: &Arc<Self>) {
+        let mut g = self.fut.lock().unwrap();
+        let ready = match g.as_mut() {
+            Some(f) => {
+                let waker = Waker::from(self.clone());
+                let mut cx = Context::from_waker(&waker);
+                matches!(f.as_mut().poll(&mut cx), Poll::Ready(()))
+            }
+            None => false,
+        };
+        if ready {
+            *g = None;
+            drop(g);
+            (self.on_done)();
+        }
+    }
+    fn pending(&self) -> bool {
+        self.fut.lock().unwrap().is_some()
+    }
+}
+impl Wake for Inline {
+    fn wake(self: Arc<Self>) {
+        self.poll_now();
+    }
+}
+
 enum AnyJoin {
     Plain(tokio::task::JoinHandle<()>),
     Instant(tokio::task::JoinHandle<Result<tokio::task::JoinHandle<()>, ractor::SpawnErr>>),
@@ -308,7 +354,7 @@ async fn run_scenario(line: &str) -> String {
     let sup_log = Arc::new(Mutex::new(Vec::<String>::new()));
     let (sup_ref, _sup_h) = Actor::spawn(
         None,
-        Sup { main_name: name.clone(), mark_prefix: mark_prefix.clone(), log: sup_log.clone() },
+        Sup { main_name: name.clone(), main_group: group.clone(), mark_prefix: mark_prefix.clone(), log: sup_log.clone() },
         (),
     )
     .await
@@ -331,6 +377,7 @@ async fn run_scenario(line: &str) -> String {
     };
     let mut join = Some(join);
     settle().await;
+    pg::monitor(group.clone(), sup_ref.get_cell());
     pg::join(group.clone(), vec![main_cell.clone()]);
     let mut kid_cells = Vec::new();
     for _ in 0..kids {
@@ -347,6 +394,7 @@ async fn run_scenario(line: &str) -> String {
     // (waiter, outcome, snapshot) in completion order
     let done: Arc<Mutex<Vec<(u64, &'static str, Snap)>>> = Arc::new(Mutex::new(Vec::new()));
     let mut started: Vec<(u64, tokio::task::JoinHandle<()>)> = Vec::new();
+    let mut inlines: Vec<(u64, Arc<Inline>)> = Vec::new();
     let mut statuses: Vec<ActorStatus> = Vec::new();
 
     for op in parts {
@@ -371,6 +419,24 @@ async fn run_scenario(line: &str) -> String {
                 let done2 = done.clone();
                 let marker2 = marker.get_cell();
                 let mark_group = format!("{mark_prefix}{id}");
+                if kind == "inline" {
+                    let cell = ctx2.cell.clone();
+                    let inl = Arc::new(Inline {
+                        fut: Mutex::new(Some(Box::pin(async move {
+                            let _ = cell.wait(None).await;
+                        }))),
+                        on_done: Box::new(move || {
+                            let snap = ctx2.snapshot();
+                            done2.lock().unwrap().push((id, "ORet", snap));
+                            pg::join(mark_group.clone(), vec![marker2.clone()]);
+                        }),
+                    });
+                    inl.poll_now();
+                    inlines.push((id, inl));
+                    settle().await;
+                    statuses.push(main_cell.get_status());
+                    continue;
+                }
                 let jh = if kind == "join" { join.take() } else { None };
                 let task = tokio::spawn(async move {
                     let cell = ctx2.cell.clone();
@@ -458,6 +524,15 @@ async fn run_scenario(line: &str) -> String {
             task.abort();
         }
     }
+    for (id, inl) in &inlines {
+        if inl.pending() {
+            pending.push(*id);
+            // disarm: the tidy-up below must not complete it
+            *inl.fut.lock().unwrap() = None;
+        }
+    }
+    pending.sort();
+    let leaves_at_end = sup_log.lock().unwrap().iter().filter(|e| *e == "leave").count();
 
     // tidy up so that nothing leaks into the next scenario; the supervisor drains its port first
     start_gate.open();
@@ -494,7 +569,7 @@ async fn run_scenario(line: &str) -> String {
         obs.push(format!("mkObs {} OPending {}", w, snap_term(&final_snap, with_sup && term_at_end)));
     }
     let sts: Vec<&str> = statuses.iter().map(|s| status_name(*s)).collect();
-    format!("({}, {})", coq_list(&obs), coq_list(&sts))
+    format!("({}, {}, {})", coq_list(&obs), coq_list(&sts), leaves_at_end)
 }
 
 fn main() {
